@@ -340,10 +340,11 @@ impl CompressorClient {
             .map_err(MonorailError::from)
     }
     pub(crate) async fn shutdown(&self) -> Result<(), MonorailError> {
-        self.req_tx
-            .send(CompressRequest::Shutdown)
-            .await
-            .map_err(MonorailError::from)
+        // Every client of a thread sends Shutdown, but the thread exits (closing its
+        // channel) on the first one it receives; a closed channel here therefore means
+        // the thread has already shut down, which is what this request asks for.
+        let _ = self.req_tx.send(CompressRequest::Shutdown).await;
+        Ok(())
     }
 }
 
